@@ -58,7 +58,7 @@ def check(run):
                     else:
                         sc.ops.append("cancel:41"); sc.exchange(S.preauth_reversal(cfg["cur"], 321), [S.completion()])
                         ok = "Ok"
-                    sc.exchange(S.pending_query(), [S.pr_abort(c, rng.choice([None, 0xFFFF]))] if c != 0xb8 else [S.pr_abort(0xb8, 0xFFFF)])
+                    sc.exchange(S.pending_query(), pre + ([S.pr_abort(c, rng.choice([None, 0xFFFF]))] if c != 0xb8 else [S.pr_abort(0xb8, 0xFFFF)]))
                     if c == 0xb8:
                         sc.exchange(S.end_of_day(cfg["pw"]), [S.completion()])
                         sc.exp_results.append(ok)
@@ -93,10 +93,10 @@ def check(run):
                         elif stage == "pending-query":
                             sc.exchange(S.initialization(cfg["pw"]), [S.completion()])
                             if c == 0xb8:
-                                sc.exchange(S.pending_query(), [S.pr_abort(0xb8, 0xFFFF)])
+                                sc.exchange(S.pending_query(), pre + [S.pr_abort(0xb8, 0xFFFF)])
                                 sc.exchange(S.end_of_day(cfg["pw"]), [S.completion()]); sc.exp_results.append("Ok")
                             else:
-                                sc.exchange(S.pending_query(), [S.pr_abort(c, rng.choice([None, 0xFFFF, 77]))]); sc.exp_results.append(err)
+                                sc.exchange(S.pending_query(), pre + [S.pr_abort(c, rng.choice([None, 0xFFFF, 77]))]); sc.exp_results.append(err)
                         else:
                             sc.exchange(S.initialization(cfg["pw"]), [S.completion()])
                             sc.exchange(S.pending_query(), [S.pr_abort(0xb8, 0xFFFF)])
